@@ -32,3 +32,4 @@ ASSUMPTIONS = ['synchronize_rcu replaced by the C01 contract stub (blocks until 
                'set_thread_cpu_affinity stubbed (no affinity)']
 LEVEL_TEXT = 'Bounded model checking of the real call_rcu / call_rcu_thread / wake-up handshake over all interleavings within R rounds plus a solo completion phase.'
 LEVEL_NOTE = 'Trusted: clang-14 lowering, irseq translator, asm table, futex/mutex/pthread_create stubs, C01 contract, CBMC/MiniSat.'
+NA_REASON = 'check built but not yet validated on the unchanged tree within the time/memory caps; not claimed'
